@@ -228,11 +228,19 @@ func trimPath(s string) string {
 
 func (fr *FuncRun) havocPointerArgs(f *Frame, st *State, c *ssa.CallCommon, args []Val) {
 	for i, a := range args {
-		if a.Addr == nil || i >= len(c.Args) {
+		if i >= len(c.Args) {
 			continue
 		}
-		pt, ok := c.Args[i].Type().Underlying().(*types.Pointer)
-		if !ok {
+		var argv ssa.Value = c.Args[i]
+		if mi, isMI := argv.(*ssa.MakeInterface); isMI {
+			// a pointer handed over inside an interface value (json.Unmarshal(data, &x))
+			argv = mi.X
+			if inner, ok := f.regs[argv]; ok {
+				a = inner
+			}
+		}
+		pt, ok := argv.Type().Underlying().(*types.Pointer)
+		if !ok || a.Addr == nil {
 			continue
 		}
 		if o, ok := a.Addr.(ObjAddr); ok {
